@@ -2,33 +2,53 @@
 import itertools
 import numpy as np
 
-from lib.kinds import Kind
+from lib.kinds import Kind, HarnessError
 from lib import core
 from translate import common as C
 
 ID = 'C15'
 TRANSLATORS = ['models']
-MODEL_TARGETS = ['theories/Model/Models.vo']
+MODEL_TARGETS = ['theories/Model/Models.vo', 'theories/Model/ModelsSeq.vo']
 PROP_TARGET = 'theories/Props/C15.vo'
 EXHAUSTIVE = True
 TRUSTED_BASE = [
     'Coq 8.16.1 kernel incl. vm_compute (no native_compute)',
     'Print Assumptions: every theorem of Props/C15.v is closed under the global context (no axioms)',
     'translator tools/translate/tr_models.py (ast; literal table re-compared with the live scared.models._HW_LUT)',
-    'correspondence harness tools/props/C15.py: numpy C-order flattening, float.hex export',
+    'correspondence harness tools/props/C15.py: inputs and results are read by LOGICAL index (nested ndarray.tolist(), row-major '
+    'enumeration of the multi-indices), never through the memory layout; exact float export; the layout builder is re-checked on '
+    'every case (the built view must enumerate to the case values)',
     'modelled, not verified: numba.vectorize dispatch, numpy swapaxes/sum/nanmax/nansum/abs semantics',
 ]
 ASSUMPTIONS = [
     'HammingWeight input is an unsigned array of the expected dtype (other inputs are refused by the code)',
     'discriminant inputs are >= 2-D float arrays with finite or NaN entries (the decorator refuses 1-D input)',
     'dyadic float values so that sums are exact in float32/float64',
+    'the specifications are pure functions of (parameters, logical input array): no theorem about call histories is needed; '
+    'that the CODE is history-free and layout-independent is held by the layout and call_sequence kinds only',
 ]
 
 HDR = 'From ScaredV Require Import Model.Models.'
 
 
+def _nested_flat(x, out=None):
+    """Row-major enumeration of a nested list (what ndarray.tolist() returns): logical indexing only."""
+    if out is None:
+        out = []
+    if isinstance(x, list):
+        for y in x:
+            _nested_flat(y, out)
+    else:
+        out.append(x)
+    return out
+
+
 def _flat(a):
-    return [int(v) for v in np.ascontiguousarray(a).reshape(-1).tolist()]
+    return [int(v) for v in _nested_flat(a.tolist())]
+
+
+def _fflat(a):
+    return [float(v) for v in _nested_flat(a.tolist())]
 
 
 class HwKind(Kind):
@@ -254,7 +274,7 @@ class DiscKind(Kind):
         with warnings.catch_warnings():
             warnings.simplefilter('ignore')
             r = getattr(scared, case['op'])(a, axis=case['axis'])
-        return {'shape': list(r.shape), 'values': [float(v) for v in np.ascontiguousarray(r).reshape(-1)]}
+        return {'shape': list(r.shape), 'values': _fflat(r)}
 
     def coq(self, case, obs):
         axis = case['axis'] if case['axis'] >= 0 else len(case['shape']) - 1
@@ -281,4 +301,624 @@ class DiscKind(Kind):
         return ['discriminant', 'disc_' + case['op']]
 
 
-KINDS = [HwKind(), MonoKind(), ValueKind(), DiscKind()]
+
+# ================================================================================================================
+# (1) memory layout and (2) object re-use.  One "call" = one model / discriminant invocation:
+#       {'m': 'hw',   'dtype', 'k', 'shape', 'axis', 'values', 'lay'}
+#       {'m': 'mono', 'dtype', 'bit', 'shape', 'axis', 'values', 'lay'}
+#       {'m': 'value','dtype', 'shape', 'axis', 'values', 'lay'}
+#       {'m': 'disc', 'dtype', 'op', 'shape', 'axis', 'values', 'lay'}
+#     'values' is the LOGICAL array (row-major enumeration of the multi-indices), 'lay' says how the ndarray that holds it
+#     is laid out in memory (None = plain C order):
+#       perm   memory order of the axes, outermost first ([0..n-1] = C, reversed = Fortran)
+#       steps  per logical axis: stride in elements of the embedding buffer (2, 3: strided; negative: reversed; 0: broadcast)
+#       pads   per logical axis: unused cells before / after (sliced view of a larger buffer); unused cells hold poison values
+#       swap   non-native byte order;  ro  read-only;  overlap  sliding window a[..., i, j] = buf[..., i + j] (shared cells)
+HDR2 = 'From ScaredV Require Import Model.Models Model.ModelsSeq.'
+
+EQUAL_SHAPES = {2: [[3, 3], [4, 4], [2, 2]], 3: [[3, 3, 3], [2, 2, 2], [4, 4, 4]], 4: [[2, 2, 2, 2], [3, 3, 3, 3]]}
+MODES = ['F', 'perm', 'strided', 'sliced', 'neg', 'bcast', 'mixed', 'swapC', 'swapF', 'roC', 'overlap']
+
+
+def _key(v):
+    """Exact identity of a number (no float comparison: NaN token / float.hex)."""
+    if isinstance(v, float):
+        return 'nan' if v != v else v.hex()
+    return int(v)
+
+
+def _same(xs, ys):
+    return [_key(x) for x in xs] == [_key(y) for y in ys]
+
+
+def _py(a, is_float):
+    return _fflat(a) if is_float else _flat(a)
+
+
+def _dtype(name, lay):
+    dt = np.dtype(name)
+    if lay and lay.get('swap'):
+        dt = dt.newbyteorder('S')
+    return dt
+
+
+def _build(values, dtype, shape, lay):
+    """ndarray of logical content (shape, values) with the memory layout `lay`."""
+    nat = np.dtype(dtype)
+    base = np.array(values, dtype=nat).reshape(shape)
+    if not lay:
+        return base
+    dt = _dtype(dtype, lay)
+    nd = len(shape)
+    if lay.get('overlap') and nd >= 2:
+        # sliding window: a[..., i, j] = buf[..., i + j]  (cells shared between logical positions, read-only)
+        n, m = shape[-2], shape[-1]
+        buf = np.empty(list(shape[:-2]) + [n + m - 1], dtype=dt)
+        buf[..., :m] = base[..., 0, :]
+        buf[..., m:] = base[..., 1:, m - 1]
+        view = np.lib.stride_tricks.as_strided(buf, shape=shape, strides=buf.strides[:-1] + (buf.strides[-1], buf.strides[-1]), writeable=False)
+        if not _same(_py(view, nat.kind == 'f'), _py(base, nat.kind == 'f')):
+            raise HarnessError('layout builder: the logical array is not a sliding window')
+        return view
+    perm = lay.get('perm') or list(range(nd))
+    steps = lay.get('steps') or [1] * nd
+    pads = lay.get('pads') or [[0, 0]] * nd
+    ext = [1 if st == 0 else pads[d][0] + (shape[d] - 1) * abs(st) + 1 + pads[d][1] for d, st in enumerate(steps)]
+    mem = np.empty([ext[p] for p in perm], dtype=dt)
+    if nat.kind == 'f':
+        pat = np.array([4096.0, -4096.0, 2048.5], dtype=nat)
+    else:
+        info = np.iinfo(nat)
+        pat = np.array([info.max, info.min, info.max // 3, info.max - info.max // 3], dtype=nat)
+    mem.reshape(-1)[:] = np.resize(pat, mem.size)          # poison: cells outside the view
+    inv = [perm.index(d) for d in range(nd)]
+    big = mem.transpose(inv)                               # logical axis order, permuted strides
+    view = big[tuple(slice(0, 1) if st == 0 else slice(pads[d][0], pads[d][0] + (shape[d] - 1) * abs(st) + 1, abs(st))
+                     for d, st in enumerate(steps))]
+    view = view[tuple(slice(None, None, -1) if st < 0 else slice(None) for st in steps)]
+    view[...] = base[tuple(slice(0, 1) if st == 0 else slice(None) for st in steps)]
+    if any(st == 0 for st in steps):
+        view = np.broadcast_to(view, shape)                # zero strides, read-only
+    elif lay.get('ro'):
+        view.setflags(write=False)
+    if list(view.shape) != list(shape) or not _same(_py(view, nat.kind == 'f'), _py(base, nat.kind == 'f')):
+        raise HarnessError(f'layout builder: view does not hold the logical array ({lay})')
+    return view
+
+
+def _rand_layout(rng, shape, mode):
+    nd = len(shape)
+    lay = {'mode': mode}
+    if mode in ('C', 'swapC', 'roC'):
+        pass
+    elif mode in ('F', 'swapF'):
+        lay['perm'] = list(range(nd))[::-1]
+    elif mode == 'perm':
+        p = list(range(nd))
+        rng.shuffle(p)
+        lay['perm'] = p
+    elif mode == 'strided':
+        lay['steps'] = [rng.choice([1, 2, 3]) for _ in range(nd)]
+        if all(s == 1 for s in lay['steps']):
+            lay['steps'][rng.randrange(nd)] = 2
+    elif mode == 'sliced':
+        lay['pads'] = [[rng.randint(0, 2), rng.randint(0, 2)] for _ in range(nd)]
+        if all(p == [0, 0] for p in lay['pads']):
+            lay['pads'][rng.randrange(nd)] = [1, 1]
+    elif mode == 'neg':
+        lay['steps'] = [rng.choice([1, -1]) for _ in range(nd)]
+        lay['steps'][rng.randrange(nd)] = -1
+    elif mode == 'overlap':
+        lay['overlap'] = True
+    elif mode == 'bcast':
+        lay['steps'] = [1] * nd
+        for d in rng.sample(range(nd), rng.randint(1, max(1, nd - 1))):
+            lay['steps'][d] = 0
+    else:   # mixed
+        p = list(range(nd))
+        rng.shuffle(p)
+        lay['perm'] = p
+        lay['steps'] = [rng.choice([1, 1, 2, -1, -2, 0]) for _ in range(nd)]
+        lay['pads'] = [[rng.randint(0, 1), rng.randint(0, 1)] for _ in range(nd)]
+        lay['swap'] = rng.random() < 0.25
+    if mode.startswith('swap'):
+        lay['swap'] = True
+    if mode == 'roC':
+        lay['ro'] = True
+    return lay
+
+
+def _conform(values, shape, lay):
+    """Make the logical array constant along the broadcast (step 0) axes / a sliding window over its last two axes."""
+    lay = lay or {}
+    steps = lay.get('steps')
+    overlap = lay.get('overlap') and len(shape) >= 2
+    if not overlap and (not steps or all(st != 0 for st in steps)):
+        return values
+    a = np.empty(len(values), dtype=object)
+    a[:] = values
+    a = a.reshape(shape)
+    if overlap:
+        n, m = shape[-2], shape[-1]
+        buf = np.concatenate([a[..., 0, :], a[..., 1:, m - 1]], axis=-1)
+        for i in range(n):
+            a[..., i, :] = buf[..., i:i + m]
+        return _nested_flat(a.tolist())
+    a = a[tuple(slice(0, 1) if st == 0 else slice(None) for st in steps)]
+    return _nested_flat(np.broadcast_to(a, shape).tolist())
+
+
+def _rand_shape(rng, ndmin, ndmax, equal, hi=4):
+    nd = rng.randint(ndmin, ndmax)
+    if equal and nd >= 2:
+        return list(rng.choice(EQUAL_SHAPES[nd]))
+    return [rng.randint(1, hi) for _ in range(nd)] if nd > 1 else [rng.randint(1, 8)]
+
+
+def _int_values(rng, dtype, n):
+    info = np.iinfo(dtype)
+    bits = np.dtype(dtype).itemsize * 8
+    if rng.random() < 0.15:
+        pool = [v for v in (int(info.min), int(info.max), 0, 1, 255, 256, 257) if int(info.min) <= v <= int(info.max)]
+        return [rng.choice(pool) for _ in range(n)]
+    return [rng.getrandbits(bits) + int(info.min) for _ in range(n)]
+
+
+def _float_values(rng, shape, axis, nan_mode):
+    size = int(np.prod(shape))
+    vals = []
+    for _ in range(size):
+        v = rng.randint(-64, 64) / rng.choice([1, 2, 4, 8])
+        if rng.random() < 0.05:
+            v = rng.choice([0.0, -0.0])
+        if nan_mode == 1 and rng.random() < 0.3:
+            v = float('nan')
+        vals.append(v)
+    if nan_mode == 2:       # one whole lane NaN
+        nd = len(shape)
+        a = np.array(vals, dtype='float64').reshape(shape)
+        idx = [rng.randrange(s) for s in shape]
+        a[tuple(slice(None) if d == (axis % nd) else idx[d] for d in range(nd))] = np.nan
+        vals = [float(v) for v in a.reshape(-1).tolist()]
+    return vals
+
+
+def _mk_call(rng, m, shape, axis, lay, **kw):
+    """Fill the values of a call (constant along broadcast axes)."""
+    n = int(np.prod(shape))
+    c = dict(kw, m=m, shape=list(shape), axis=axis, lay=lay)
+    if m == 'disc':
+        vals = _float_values(rng, shape, axis, kw.pop('nan_mode', rng.choice([0, 0, 1, 2])))
+        c.pop('nan_mode', None)
+    else:
+        vals = _int_values(rng, c['dtype'], n)
+    c['values'] = _conform(vals, shape, lay)
+    return c
+
+
+def _invoke(obj, call, a):
+    import warnings
+    if call['m'] == 'disc':
+        import scared
+        with warnings.catch_warnings():
+            warnings.simplefilter('ignore')
+            return getattr(scared, call['op'])(a, axis=call['axis'])
+    return obj(a, axis=call['axis'])
+
+
+def _make_obj(call):
+    import scared
+    if call['m'] == 'hw':
+        return scared.HammingWeight(nb_words=call['k'], expected_dtype=_dtype(call['dtype'], {'swap': call.get('swap', bool((call.get('lay') or {}).get('swap')))}))
+    if call['m'] == 'mono':
+        return scared.Monobit(call['bit'])
+    if call['m'] == 'value':
+        return scared.Value()
+    return None
+
+
+def _coq_call(call, shape, values):
+    """Coq `call` literal: logical input of the case + observed (shape, values)."""
+    nd = len(call['shape'])
+    axis = call['axis'] if call['axis'] >= 0 else nd - 1
+    sh = C.coq_list(call['shape'], C.coq_nat)
+    osh = C.coq_list(shape, C.coq_nat)
+    if call['m'] == 'hw':
+        return ('(CHw {| hw_itemsize := %s; hw_k := %s; hw_shape := %s; hw_axis := %s; hw_in := %s; hw_obs_shape := %s; hw_obs := %s |})' % (
+            C.coq_n(np.dtype(call['dtype']).itemsize), C.coq_nat(call['k']), sh, C.coq_nat(axis), C.coq_list(call['values'], C.coq_n),
+            osh, C.coq_list(values, C.coq_n)))
+    if call['m'] == 'mono':
+        return '(CMono {| ma_bit := %s; ma_shape := %s; ma_in := %s; ma_obs_shape := %s; ma_obs := %s |})' % (
+            C.coq_n(call['bit']), sh, C.coq_list(call['values'], C.coq_z), osh, C.coq_list(values, C.coq_n))
+    if call['m'] == 'value':
+        return '(CValue {| va_shape := %s; va_in := %s; va_obs_shape := %s; va_obs := %s |})' % (
+            sh, C.coq_list(call['values'], C.coq_z), osh, C.coq_list(values, C.coq_z))
+    return '(CDisc {| dc_op := %s; dc_shape := %s; dc_axis := %s; dc_in := %s; dc_obs_shape := %s; dc_obs := %s |})' % (
+        dict(OPS)[call['op']], sh, C.coq_nat(axis), C.coq_list(call['values'], core.float_to_coq), osh, C.coq_list(values, core.float_to_coq))
+
+
+def _call_label(call):
+    lay = call.get('lay') or {}
+    what = {'hw': lambda: f'HammingWeight(nb_words={call["k"]}, {call["dtype"]})', 'mono': lambda: f'Monobit({call["bit"]}) on {call["dtype"]}',
+            'value': lambda: f'Value on {call["dtype"]}', 'disc': lambda: f'{call["op"]} on {call["dtype"]}'}[call['m']]()
+    return f'{what} shape={call["shape"]} axis={call["axis"]} layout={lay.get("mode", "C")}'
+
+
+class LayoutKind(Kind):
+    name = 'layout'
+    header = HDR2
+    case_type = 'call'
+    check_fn = 'call_check'
+    explain_fn = 'call_expected'
+    shard = 60
+    rule = ('every model (HammingWeight nb_words 1..4 on uint8..uint64, Monobit 0..8, Value) and every discriminant on Fortran-ordered, '
+            'axis-permuted, strided, sliced, negative-stride, broadcast (zero-stride, read-only), sliding-window (overlapping), non-native-endian '
+            'and read-only views, '
+            '1-D..4-D, shapes with all dimensions EQUAL (a result with permuted axes keeps the right shape) and with different dimensions, '
+            'every axis; input built and result read by logical index (nested tolist()); the cells of the embedding buffer outside the '
+            'view hold poison values; non-trivial = layout is not plain C order and at least two distinct input values')
+
+    def gen(self, rng, tier):
+        quick = tier == 'quick'
+        # deterministic block: pure Fortran order, every op / dtype, every axis, equal and unequal dimensions
+        for op, _ in OPS:
+            for shape in ([3, 3, 3], [2, 3, 4], [2, 2, 2, 2]):
+                nd = len(shape)
+                for axis in list(range(nd - 1)) + [-1]:
+                    yield _mk_call(rng, 'disc', shape, axis, {'mode': 'F', 'perm': list(range(nd))[::-1]}, op=op,
+                                   dtype='float64' if (axis + nd) % 2 else 'float32')
+        for dt in ('uint8', 'uint16', 'uint32', 'uint64'):
+            for k in (1, 2):
+                for shape in ([4, 4, 4], [2, 3, 4]):
+                    for axis in (0, 1, -1):
+                        if shape[axis] >= k:
+                            yield _mk_call(rng, 'hw', shape, axis, {'mode': 'F', 'perm': [2, 1, 0]}, dtype=dt, k=k)
+        for bit in (0, 7, 8):
+            for dt in ('uint8', 'uint16', 'int32'):
+                yield _mk_call(rng, 'mono', [3, 3, 3], rng.choice([0, 1, -1]), {'mode': 'F', 'perm': [2, 1, 0]}, dtype=dt, bit=bit)
+        for dt in ('uint8', 'int64'):
+            yield _mk_call(rng, 'value', [3, 3, 3], -1, {'mode': 'F', 'perm': [2, 1, 0]}, dtype=dt)
+        # 512 elements (beyond small-array shortcuts of numpy / numba), Fortran order and a strided permuted view
+        big = {'mode': 'mixed', 'perm': [1, 2, 0], 'steps': [2, 1, -1], 'pads': [[1, 0], [0, 1], [1, 1]]}
+        yield _mk_call(rng, 'hw', [8, 8, 8], 1, {'mode': 'F', 'perm': [2, 1, 0]}, dtype='uint32', k=2)
+        yield _mk_call(rng, 'hw', [8, 8, 8], 0, dict(big), dtype='uint8', k=3)
+        yield _mk_call(rng, 'mono', [8, 8, 8], -1, dict(big), dtype='uint16', bit=8)
+        yield _mk_call(rng, 'disc', [8, 8, 8], 0, {'mode': 'F', 'perm': [2, 1, 0]}, op='nansum', dtype='float32', nan_mode=1)
+        yield _mk_call(rng, 'disc', [8, 8, 8], 1, dict(big), op='nanmax', dtype='float64', nan_mode=2)
+        # random structure
+        def shape_axis(ndmin, ndmax):
+            shape = _rand_shape(rng, ndmin, ndmax, rng.random() < 0.5)
+            return shape, rng.choice(list(range(len(shape))) + [-1])
+        for i in range(150 if quick else 1500):
+            shape, axis = shape_axis(2, 4)
+            lay = _rand_layout(rng, shape, MODES[i % len(MODES)])
+            yield _mk_call(rng, 'disc', shape, axis, lay, op=OPS[(i // len(MODES)) % len(OPS)][0], dtype=rng.choice(['float32', 'float64']))
+        for i in range(120 if quick else 1200):
+            shape, axis = shape_axis(1, 4)
+            lay = _rand_layout(rng, shape, MODES[i % len(MODES)])
+            yield _mk_call(rng, 'hw', shape, axis, lay, dtype=rng.choice(['uint8', 'uint16', 'uint32', 'uint64']),
+                           k=rng.randint(1, min(4, shape[axis])))
+        for i in range(50 if quick else 500):
+            shape, axis = shape_axis(1, 4)
+            lay = _rand_layout(rng, shape, MODES[i % len(MODES)])
+            yield _mk_call(rng, 'mono', shape, axis, lay, bit=rng.choice([0, 1, 3, 7, 8, 8]),
+                           dtype=rng.choice(['uint8', 'uint16', 'uint32', 'uint64', 'int8', 'int16', 'int32', 'int64']))
+        for i in range(20 if quick else 200):
+            shape, axis = shape_axis(1, 4)
+            lay = _rand_layout(rng, shape, MODES[i % len(MODES)])
+            yield _mk_call(rng, 'value', shape, axis, lay, dtype=rng.choice(['uint8', 'uint16', 'int16', 'uint32', 'int64']))
+
+    def run(self, case):
+        isf = case['m'] == 'disc'
+        a = _build(case['values'], case['dtype'], case['shape'], case.get('lay'))
+        r = _invoke(_make_obj(case), case, a)
+        return {'shape': list(r.shape), 'values': _py(r, isf), 'input_unchanged': _same(_py(a, isf), case['values'])}
+
+    def coq(self, case, obs):
+        return _coq_call(case, obs.get('shape', []), obs.get('values', []))
+
+    def oracle(self, case, obs):
+        if 'raised' in obs:
+            return f'{_call_label(case)} raised {obs["raised"]}: {obs["msg"]}'
+        if not obs['input_unchanged']:
+            return f'{_call_label(case)}: input array modified'
+        return None
+
+    def nontrivial(self, case, obs):
+        return (case.get('lay') or {}).get('mode', 'C') != 'C' and len({_key(v) for v in case['values']}) >= 2
+
+    def features(self, case, obs):
+        return {'m': case['m'], 'mode': (case.get('lay') or {}).get('mode', 'C'), 'ndim': len(case['shape']),
+                'dims': 'equal' if len(set(case['shape'])) == 1 and len(case['shape']) > 1 else 'different'}
+
+    def tags(self, case, obs):
+        return ['layout', 'layout_' + case['m']]
+
+    def shrink(self, case):
+        if case.get('lay'):
+            yield dict(case, lay=None)     # same logical array in plain C order: does the failure need the layout?
+
+
+def _norm_steps(steps):
+    """A call on an earlier ndarray without rewriting it sees what that ndarray holds at that point of the sequence."""
+    content, out = {}, []
+    for i, st in enumerate(steps):
+        st = dict(st)
+        j = st.get('reuse_input')
+        if j is None or j >= i or j not in content:
+            st['reuse_input'] = None
+            st.pop('mutate', None)
+            content[i] = st['values']
+        elif st.get('mutate'):
+            content[j] = st['values']
+        else:
+            st['values'] = content[j]
+        out.append(st)
+    return out
+
+
+class SeqKind(Kind):
+    name = 'call_sequence'
+    header = HDR2
+    case_type = 'seq_case'
+    check_fn = 'seq_check'
+    explain_fn = 'seq_explain'
+    shard = 30
+    rule = ('2..4 calls on the same object(s): one or two HammingWeight instances (nb_words 1..4), one Monobit / Value instance, the five '
+            'discriminant functions, or a HammingWeight + Monobit + Value + discriminants interleaved; instances of equal and of different '
+            'dtypes; same and different shapes, axes, values, layouts, the very same input ndarray again (same content, or rewritten in '
+            'place by the caller), calls the code refuses in between; every result is read right after its call AND again after all later calls, both must equal the '
+            'specification of their own call; every input is re-read after the last call and must hold what the caller wrote last; '
+            'non-trivial = at least two accepted calls')
+
+    # ---- generators
+    @staticmethod
+    def _hw_lay(lay, swap):
+        if lay and 'swap' in lay:
+            lay['swap'] = swap
+        elif swap:
+            lay = dict(lay or {'mode': 'swapC'}, swap=True)
+        return lay
+
+    @staticmethod
+    def _writable(st):
+        lay = st.get('lay') or {}
+        return not (lay.get('ro') or lay.get('overlap') or any(x == 0 for x in lay.get('steps') or []))
+
+    def _hw_seq(self, rng, dts, ks, plan, swap=False):
+        """plan: list of (instance index, shape, axis, mode) | ('refuse', instance) | ('again', step index) | ('mutate', step index)."""
+        if isinstance(dts, str):
+            dts = [dts] * len(ks)
+        objs = [{'m': 'hw', 'dtype': dt, 'k': k, 'swap': swap} for dt, k in zip(dts, ks)]
+        steps = []
+        for p in plan:
+            if p[0] == 'again':         # the very same ndarray again
+                steps.append(dict(steps[p[1]], reuse_input=p[1]))
+                continue
+            if p[0] == 'mutate':        # the very same ndarray, new content written in place by the caller
+                j = p[1]
+                st = _mk_call(rng, 'hw', steps[j]['shape'], steps[j]['axis'], steps[j].get('lay'), dtype=steps[j]['dtype'], k=steps[j]['k'])
+                steps.append(dict(st, obj=steps[j]['obj'], reuse_input=j, mutate=True))
+                continue
+            if p[0] == 'refuse':
+                o = p[1]
+                k, dt = ks[o], dts[o]
+                if k > 1 and rng.random() < 0.5:      # too short along the axis
+                    st = _mk_call(rng, 'hw', [2, k - 1], -1, None, dtype=dt, k=k)
+                else:                                  # wrong dtype
+                    other = rng.choice([d for d in ('uint8', 'uint16', 'uint32', 'uint64') if d != dt])
+                    st = _mk_call(rng, 'hw', [2, max(k, 3)], -1, None, dtype=other, k=k)
+                steps.append(dict(st, obj=o, refuse=True))
+                continue
+            o, shape, axis, mode = p
+            lay = self._hw_lay(_rand_layout(rng, shape, mode) if mode != 'C' else None, swap)
+            steps.append(dict(_mk_call(rng, 'hw', shape, axis, lay, dtype=dts[o], k=ks[o]), obj=o))
+        return {'objs': objs, 'steps': _norm_steps(steps)}
+
+    def _rand_seq(self, rng, objs, nsteps):
+        """Random calls on the given objects: new arrays, shapes seen before, the same ndarray again (same / rewritten content), refusals."""
+        steps, shapes = [], []
+        mode = lambda: 'C' if rng.random() < 0.6 else rng.choice(MODES)
+        for _ in range(nsteps):
+            oi = rng.randrange(len(objs))
+            obj = objs[oi]
+            m = obj['m']
+            kmin = obj.get('k', 1)
+
+            def params():
+                if m == 'hw':
+                    return {'dtype': obj['dtype'], 'k': obj['k']}
+                if m == 'mono':
+                    return {'bit': obj['bit'], 'dtype': rng.choice(['uint8', 'uint16', 'uint32', 'uint64', 'int16', 'int32'])}
+                if m == 'value':
+                    return {'dtype': rng.choice(['uint8', 'uint16', 'int16', 'uint32', 'int64'])}
+                return {'op': rng.choice(OPS)[0], 'dtype': rng.choice(['float32', 'float64'])}
+            roots = [j for j, st in enumerate(steps) if st.get('reuse_input') is None and not st.get('refuse') and st['m'] == m
+                     and (m != 'hw' or (st['dtype'] == obj['dtype'] and st['shape'][st['axis']] >= kmin))]
+            u = rng.random()
+            if m == 'hw' and u < 0.1:
+                k, dt = obj['k'], obj['dtype']
+                if k > 1 and rng.random() < 0.5:
+                    st = _mk_call(rng, 'hw', [2, k - 1], -1, None, dtype=dt, k=k)
+                else:
+                    other = rng.choice([d for d in ('uint8', 'uint16', 'uint32', 'uint64') if d != dt])
+                    st = _mk_call(rng, 'hw', [2, max(k, 3)], -1, None, dtype=other, k=k)
+                steps.append(dict(st, obj=oi, refuse=True))
+                continue
+            if roots and u < 0.2:
+                j = rng.choice(roots)
+                st = dict(steps[j], obj=oi, reuse_input=j)
+                st.pop('mutate', None)
+                pr = params()
+                st.update({k_: v for k_, v in pr.items() if k_ != 'dtype'})     # other nb_words / op on the same ndarray
+                steps.append(st)
+                continue
+            wr = [j for j in roots if self._writable(steps[j])]
+            if wr and u < 0.32 and m != 'value':            # Value returns its argument: rewriting it rewrites the result, by definition
+                j = rng.choice(wr)
+                pr = dict(params(), dtype=steps[j]['dtype'])
+                st = _mk_call(rng, m, steps[j]['shape'], steps[j]['axis'], steps[j].get('lay'), **pr)
+                steps.append(dict(st, obj=oi, reuse_input=j, mutate=True))
+                continue
+            if shapes and rng.random() < 0.6:               # shape and axis of an earlier call
+                shape, axis = rng.choice(shapes)
+            else:
+                shape = _rand_shape(rng, 2 if m == 'disc' else 1, 3, rng.random() < 0.4, hi=5)
+                axis = rng.choice(list(range(len(shape))) + [-1])
+            if m == 'disc' and len(shape) < 2:
+                shape, axis = [2] + list(shape), -1
+            if shape[axis] < kmin:
+                shape = list(shape)
+                shape[axis] = kmin + rng.randint(0, 2)
+            shapes.append((shape, axis))
+            md = mode()
+            lay = _rand_layout(rng, shape, md) if md != 'C' else None
+            if m == 'hw':
+                lay = self._hw_lay(lay, obj.get('swap', False))
+            steps.append(dict(_mk_call(rng, m, shape, axis, lay, **params()), obj=oi))
+        return {'objs': objs, 'steps': _norm_steps(steps)}
+
+    def gen(self, rng, tier):
+        quick = tier == 'quick'
+        # deterministic block: same instance, same shape, 2..3 calls (per dtype, nb_words 1..3, first / last axis)
+        for dt in ('uint8', 'uint16', 'uint32', 'uint64'):
+            for k in (1, 2, 3):
+                yield self._hw_seq(rng, dt, [k], [(0, [2, 6], -1, 'C')] * 3)
+                yield self._hw_seq(rng, dt, [k], [(0, [6, 2], 0, 'C')] * 2)
+                yield self._hw_seq(rng, dt, [k], [(0, [2, 6], -1, 'C'), ('mutate', 0), ('mutate', 0)])
+            yield self._hw_seq(rng, dt, [2], [(0, [3, 4, 2], 1, 'C'), (0, [2, 4], 1, 'C'), (0, [3, 4, 2], 1, 'C'), (0, [3, 2, 2], -1, 'C')])
+            yield self._hw_seq(rng, dt, [2], [(0, [2, 4], -1, 'C'), ('refuse', 0), (0, [2, 4], -1, 'C')])
+            yield self._hw_seq(rng, dt, [2, 2], [(0, [2, 4], -1, 'C'), (1, [2, 4], -1, 'C'), (0, [2, 4], -1, 'C'), (1, [2, 4], -1, 'C')])
+            yield self._hw_seq(rng, dt, [2], [(0, [4, 3], 0, 'C'), ('again', 0), (0, [4, 3], 0, 'F')])
+        # two instances of different dtypes, same output shape
+        yield self._hw_seq(rng, ['uint8', 'uint32'], [2, 2], [(0, [2, 4], -1, 'C'), (1, [2, 4], -1, 'C'), (0, [2, 4], -1, 'C'), (1, [2, 4], -1, 'C')])
+        yield self._hw_seq(rng, ['uint64', 'uint16'], [1, 1], [(0, [3, 3], 0, 'C'), (1, [3, 3], 0, 'F'), (0, [3, 3], 0, 'F'), (1, [3, 3], 0, 'C')])
+        for op, _ in OPS:
+            steps = [dict(_mk_call(rng, 'disc', [3, 4], ax, None, op=op, dtype='float64', nan_mode=nm), obj=0) for ax, nm in ((-1, 0), (-1, 1), (-1, 2))]
+            yield {'objs': [{'m': 'disc'}], 'steps': steps}
+            steps = [dict(_mk_call(rng, 'disc', [3, 3, 3], 0, None, op=op, dtype='float32', nan_mode=0), obj=0) for _ in range(2)]
+            yield {'objs': [{'m': 'disc'}], 'steps': steps}
+            first = dict(_mk_call(rng, 'disc', [3, 3], 0, None, op=op, dtype='float64', nan_mode=1), obj=0)
+            yield {'objs': [{'m': 'disc'}], 'steps': [first] + [
+                dict(_mk_call(rng, 'disc', [3, 3], 0, None, op=op, dtype='float64', nan_mode=nm), obj=0, reuse_input=0, mutate=True) for nm in (0, 1)]}
+        first = dict(_mk_call(rng, 'disc', [2, 3, 2], 1, None, op='nanmax', dtype='float64', nan_mode=1), obj=0)
+        yield {'objs': [{'m': 'disc'}], 'steps': [first] + [dict(first, op=op, reuse_input=0) for op in ('opposite_min', 'abssum', 'maxabs')]}
+        for bit in (0, 8):
+            yield {'objs': [{'m': 'mono', 'bit': bit}],
+                   'steps': [dict(_mk_call(rng, 'mono', [2, 5], -1, None, bit=bit, dtype=dt), obj=0) for dt in ('uint16', 'uint16', 'uint8', 'int32')]}
+        yield {'objs': [{'m': 'value'}], 'steps': [dict(_mk_call(rng, 'value', [2, 3], -1, None, dtype=dt), obj=0) for dt in ('uint8', 'uint8', 'int64')]}
+        # random structure
+        DTS = ['uint8', 'uint16', 'uint32', 'uint64']
+        for i in range(100 if quick else 1000):
+            which = rng.random()
+            if which < 0.45:
+                n = rng.choice([1, 1, 2])
+                dt = rng.choice(DTS)
+                swap = dt != 'uint8' and rng.random() < 0.1
+                objs = [{'m': 'hw', 'dtype': dt if (swap or rng.random() < 0.7) else rng.choice(DTS), 'k': rng.randint(1, 4), 'swap': swap} for _ in range(n)]
+            elif which < 0.75:
+                objs = [{'m': 'disc'}]
+            elif which < 0.85:
+                objs = [{'m': 'mono', 'bit': rng.choice([0, 1, 5, 7, 8])}]
+            elif which < 0.92:
+                objs = [{'m': 'value'}]
+            else:   # different kinds of objects interleaved
+                objs = [{'m': 'hw', 'dtype': rng.choice(DTS), 'k': rng.randint(1, 3), 'swap': False}, {'m': 'mono', 'bit': rng.choice([0, 7, 8])},
+                        {'m': 'disc'}, {'m': 'value'}]
+            yield self._rand_seq(rng, objs, rng.randint(2, 4))
+
+    # ---- driver
+    def run(self, case):
+        objs = [_make_obj(o) for o in case['objs']]
+        arrays, results, out, content = [], [], [], {}
+        steps = _norm_steps(case['steps'])
+        for i, st in enumerate(steps):
+            isf = st['m'] == 'disc'
+            j = st.get('reuse_input')
+            if j is None:
+                a = _build(st['values'], st['dtype'], st['shape'], st.get('lay'))
+                content[id(a)] = st['values']
+            else:
+                a = arrays[j]
+                if st.get('mutate'):        # the caller rewrites its own array in place between two calls
+                    a[...] = np.array(st['values'], dtype=np.dtype(st['dtype'])).reshape(st['shape'])
+                    content[id(a)] = st['values']
+            arrays.append(a)
+            try:
+                r = _invoke(objs[st['obj']], st, a)
+            except Exception as e:      # noqa: an exception of the implementation is an observation
+                results.append(None)
+                out.append({'raised': type(e).__name__, 'msg': str(e)[:200]})
+                continue
+            results.append(r)
+            out.append({'now': {'shape': list(r.shape), 'values': _py(r, isf)}})      # deep snapshot (python numbers)
+        for st, a, r, o in zip(steps, arrays, results, out):                         # after ALL calls
+            isf = st['m'] == 'disc'
+            o['input_unchanged'] = _same(_py(a, isf), content[id(a)])                 # = what the caller wrote last
+            if r is not None:
+                o['after'] = {'shape': list(r.shape), 'values': _py(r, isf)}
+        return {'steps': out}
+
+    def coq(self, case, obs):
+        now, after = [], []
+        for st, o in zip(_norm_steps(case['steps']), obs.get('steps', [{}] * len(case['steps']))):
+            if st.get('refuse'):
+                continue
+            n, a = o.get('now', {}), o.get('after', {})
+            now.append(_coq_call(st, n.get('shape', []), n.get('values', [])))
+            after.append(_coq_call(st, a.get('shape', []), a.get('values', [])))
+        return '{| sq_now := %s; sq_after := %s |}' % (C.coq_list(now), C.coq_list(after))
+
+    def oracle(self, case, obs):
+        if 'raised' in obs:
+            return f'call sequence raised {obs["raised"]}: {obs["msg"]}'
+        for i, (st, o) in enumerate(zip(case['steps'], obs['steps'])):
+            if 'raised' in o and not st.get('refuse'):
+                return f'call #{i} ({_call_label(st)}) raised {o["raised"]}: {o["msg"]}'
+            if not o['input_unchanged']:
+                return f'input array of call #{i} ({_call_label(st)}) modified after the sequence'
+        return None
+
+    def nontrivial(self, case, obs):
+        return sum(1 for st in case['steps'] if not st.get('refuse')) >= 2
+
+    def features(self, case, obs):
+        sh = [(tuple(st['shape']), st['axis']) for st in case['steps'] if not st.get('refuse')]
+        return {'m': case['objs'][0]['m'], 'calls': len(case['steps']), 'instances': len(case['objs']),
+                'repeated_shape': len(set(sh)) < len(sh), 'refused_call': any(st.get('refuse') for st in case['steps']),
+                'same_ndarray_again': any(st.get('reuse_input') is not None for st in case['steps']),
+                'rewritten_in_place': any(st.get('mutate') for st in case['steps']),
+                'kinds_of_objects': len({o['m'] for o in case['objs']}), 'dtypes_of_instances': len({o.get('dtype') for o in case['objs']})}
+
+    def tags(self, case, obs):
+        return ['call_sequence', 'call_sequence_' + case['objs'][0]['m']]
+
+    def sample(self, case, obs):
+        return {'case': {'objs': case['objs'], 'steps': [{k: v for k, v in st.items() if k != 'values'} | {'values': st['values'][:8]} for st in case['steps']]},
+                'observed': {'steps': [{k: (v if not isinstance(v, dict) else {'shape': v['shape'], 'values': v['values'][:8]}) for k, v in o.items()}
+                                       for o in obs.get('steps', [])]}}
+
+    def shrink(self, case):
+        steps = case['steps']
+        if len(steps) <= 1:
+            return
+        for i in range(len(steps) - 1, -1, -1):
+            new = []
+            for j, st in enumerate(steps):
+                if j == i:
+                    continue
+                st = dict(st)
+                r = st.get('reuse_input')
+                if r is not None:
+                    if r == i:
+                        st['reuse_input'] = None
+                    elif r > i:
+                        st['reuse_input'] = r - 1
+                new.append(st)
+            yield dict(case, steps=_norm_steps(new))
+        for i, st in enumerate(steps):
+            if st.get('lay'):
+                yield dict(case, steps=[dict(s, lay=None) if j == i else s for j, s in enumerate(steps)])
+
+
+KINDS = [HwKind(), MonoKind(), ValueKind(), DiscKind(), LayoutKind(), SeqKind()]
